@@ -971,7 +971,13 @@ class Runner:
                 return
             mm = compare_res(body, res[1])
             if mm:
-                self.add_failure("divergence", f"C20/parse/{self._coarse_parse(branch)}", f"{desc}: {mm}",
+                # where the model answers with a HINT the value is fixed by the property's own words ("a decimal
+                # integer n within float range gives n, an HTTP-date gives the time until that date clamped at
+                # 0"; theorems parse_int / parse_date in Props/C20.lean): a different answer is a violation of C20, not
+                # just a divergence.  Where the model answers "no hint" the text leaves room ("garbage").
+                fixed = body.split(" ")[0] == "hint"
+                self.add_failure("violation" if fixed else "divergence",
+                                 f"C20/parse{'-value' if fixed else ''}/{self._coarse_parse(branch)}", f"{desc}: {mm}",
                                  replay + f"\npython: returned {res[1]!r}", case)
                 return
             want = {"value": f"value {iv[1]}" if iv[0] == "value" else None, "invalid": "invalid",
